@@ -323,9 +323,15 @@ func (w *nfWorld) newServer(capT, capP, capR string) {
 					sl.parkUnsub = ""
 				}
 			}
+			refuse := req.Params != nil && w.refuse[nfURIIndex(req.Params.URI)]
 			w.mu.Unlock()
 			if ch != nil {
 				<-ch
+			}
+			if refuse {
+				// the application refuses (policy u<j> refuse covers both handlers): resources/unsubscribe of a
+				// legacy session fails and the subscription stays; the clean-up of a stream ignores the error
+				return fmt.Errorf("unsubscription from %s refused", req.Params.URI)
 			}
 			return nil
 		},
@@ -1312,7 +1318,9 @@ func (w *nfWorld) apply(toks []string) (obs string) {
 			}
 			err = sl.cs.Unsubscribe(context.Background(), &UnsubscribeParams{URI: nfURI(u)})
 			synctest.Wait()
-			delete(sl.rsubs, u)
+			if err == nil || sl.modern {
+				delete(sl.rsubs, u)
+			}
 			held := false
 			if hold {
 				w.mu.Lock()
@@ -2504,7 +2512,7 @@ func (g *nfGen) body(w *nfWorld) string {
 	return changeOp()
 }
 
-const nfScriptedShapes = 31
+const nfScriptedShapes = 32
 
 // nfScripted: the shapes the property is about, placed at random offsets (so that quick runs always reach them).
 func nfScripted(rng *rand.Rand, hook string, variant int) []string {
@@ -2675,6 +2683,9 @@ func nfScripted(rng *rand.Rand, hook string, variant int) []string {
 			ops = append(ops, "cbrun tools")
 		}
 		ops = append(ops, "close c2 drop", "tables", "rupdated u1", "close c1 drop", "tables")
+	case 31: // the application refuses to unsubscribe: resources/unsubscribe of a legacy session fails and the session stays subscribed; the clean-up of a 2026-07-28 stream ignores the refusal
+		ops = append(ops, "connect c0 1 legacy -", "connect c1 2 modern -", "subscribe c0 u0", "subscribe c1 u0", "policy u0 refuse", "unsubscribe c0 u0", "tables", "rupdated u0",
+			"unsubscribe c1 u0", "tables", "rupdated u0", "policy u0 accept", "unsubscribe c0 u0", "rupdated u0", "tables")
 	case 5: // capability inferred at listen time: nothing to list yet
 		ops = append(ops, "connect c0 1 modern tpr", "listen c0", "tables", "change prompts add", fmt.Sprintf("advance %d", d+1))
 		if hook == "hook1" {
